@@ -26,6 +26,11 @@ def rv(v):
     return f"n{v.idx}"
 
 
+def rv_dump(v):
+    """A pure label function that shows every attribute name the vertex has (as a debug label would)."""
+    return f"n{v.idx}:" + ",".join(sorted(vars(v)))
+
+
 def re_(e):
     return f"{type(e).__name__}#{e.eidx}"
 
@@ -43,7 +48,8 @@ NETWORK_KWARGS = [None, {"directed": True}, {"directed": False}, {"cdn_resources
 def run_case(ctx, spec, with_funcs, nk=0):
     g = graphs.build(spec)
     case = {"spec": spec, "funcs": with_funcs, "nk": nk}
-    kw = dict(rvfunc=rv, refunc=re_) if with_funcs else {}
+    rvf = rv_dump if with_funcs == "dump" else rv
+    kw = dict(rvfunc=rvf, refunc=re_) if with_funcs else {}
     if NETWORK_KWARGS[nk] is not None:
         kw["network_kwargs"] = dict(NETWORK_KWARGS[nk])
         ctx.count("cases_with_network_kwargs")
@@ -65,8 +71,9 @@ def run_case(ctx, spec, with_funcs, nk=0):
         return
     if with_funcs:
         labels = [net.get_node(i).get("label") for i in range(n)]
-        if labels != [rv(v) for v in members]:
-            ctx.violation("node_labels", f"labels {labels}, expected {[rv(v) for v in members]}", case)
+        if labels != [rvf(v) for v in members]:
+            ctx.violation("node_labels", f"labels {labels[:6]}, expected {[rvf(v) for v in members][:6]} (rvfunc evaluated "
+                          f"on the same vertices after the export)", case)
             return
     index = {id(v): i for i, v in enumerate(members)}
     directed = collections.Counter()
@@ -177,7 +184,8 @@ def run(ctx):
             spec["attrs"] = {str(i): {"color": "red", "weight": i * 1.5} for i in range(len(spec["verts"])) if i % 2}
         for f in graphs.features(spec):
             ctx.count("graphs_with_" + f)
-        run_case(ctx, spec, bool(n % 2), nk=(n // 2) % len(NETWORK_KWARGS) if n % 3 == 0 else 0)
+        run_case(ctx, spec, ("dump" if n % 4 == 3 else True) if n % 2 else False,
+                 nk=(n // 2) % len(NETWORK_KWARGS) if n % 3 == 0 else 0)
         k += 1
         if k in (4, 150) and ctx.shard == 0:
             ctx.sample({"spec": spec, "callbacks": bool(n % 2)})
